@@ -76,7 +76,7 @@ static int g_sorted = 0;
 static Node *g_fdnode[FDMAX];
 static unsigned char g_fdrand[FDMAX];
 
-typedef struct { DIR *dp; Node *node; struct dirent64 *ents; int n; int pos; int delivered; struct dirent64 cur; } DirState;
+typedef struct { DIR *dp; Node *node; struct dirent64 *ents; int n; int pos; int delivered; int failed; struct dirent64 cur; } DirState;
 static DirState g_dirs[256];
 
 /* ---------------------------------------------------------------- real functions */
@@ -694,7 +694,7 @@ static void dir_load(DirState *ds) {
         for (int i = w; i < ds->n; i++) if (!used[i]) out[o++] = ds->ents[i];
         free(ds->ents); free(used); ds->ents = out;
     }
-    ds->pos = 0; ds->delivered = 0;
+    ds->pos = 0; ds->delivered = 0; ds->failed = 0;
 }
 
 static DIR *register_dir(DIR *dp, Node *n) {
@@ -746,8 +746,9 @@ struct dirent64 *readdir64(DIR *dp) {
     if (!isdot) {
         for (int i = 0; i < g_nfails; i++) {
             Fail *f = &g_fails[i];
-            if (f->call == C_READDIR && f->ino == dn->ino && f->arg == ds->delivered && !f->count) {
-                f->count = 1; logline("readdir %s @%d -> err %d inj:fail", enc(dn->rel, e2, sizeof e2), ds->delivered, f->err); errno = f->err; return NULL;
+            /* a bad directory block fails for every stream that reaches it (once per stream: the caller may go on reading) */
+            if (f->call == C_READDIR && f->ino == dn->ino && f->arg == ds->delivered && !ds->failed) {
+                ds->failed = 1; f->count++; logline("readdir %s @%d -> err %d inj:fail", enc(dn->rel, e2, sizeof e2), ds->delivered, f->err); errno = f->err; return NULL;
             }
         }
     }
